@@ -38,11 +38,11 @@ def seeds():
             bad += 1
             continue
         try:
-            rc, line = check(meta["breaks_property"])
+            rc, line = check(meta.get("detected_by_check_of", meta["breaks_property"]))
         finally:
             git("checkout", "--", ".")
         ok = rc == 1 and line.startswith("VIOLATION")
-        print("%s -> %s: %s %s" % (sid, meta["breaks_property"], "caught" if ok else "MISSED", line[:120]), flush=True)
+        print("%s -> %s: %s %s" % (sid, meta.get("detected_by_check_of", meta["breaks_property"]), "caught" if ok else "MISSED", line[:120]), flush=True)
         bad += 0 if ok else 1
     return bad
 
